@@ -103,8 +103,8 @@ CHECKS = {
     text="All operation sequences up to length 3 (quick, length 4 sampled) / 5 (thorough) over 13 operations (enable with/without parameters, enable of two invalid contexts, a two-name "
          "activation that fails part-way, disable(1), disable(all), with-enter, with-exit, exception inside a with-block, define) are executed on a real registry while a list models the stack; "
          "afterwards a 27-answer probe battery (conversions only valid inside each context, redefined and dependent units, root/base units, compatible sets, stack depth) must equal that of a "
-         "fresh twin with exactly the model stack enabled, and after leaving everything the pre-entry answers; Context objects are fingerprinted, also when shared by two registries.",
-    category="fault_enumeration Operations added later: the decorator form ureg.with_context (returning / raising call; complete enumeration up to length 3 / 4); the battery also asks ureg.get_base_units under a default system and fingerprints every plain registry setting (on_redefinition policy ...).",
+         "fresh twin with exactly the model stack enabled, and after leaving everything the pre-entry answers; Context objects are fingerprinted, also when shared by two registries. Operations added later: the decorator form ureg.with_context (returning / raising call; complete enumeration up to length 3 / 4); the battery also asks ureg.get_base_units under a default system and fingerprints every plain registry setting (on_redefinition policy ...).",
+    category="fault_enumeration",
     note="small dedicated registry (3 dimensions, 5 contexts); the twin is trusted for values (C11)",
     ref="4/C12"),
  "C11": dict(
